@@ -617,9 +617,12 @@ class ArgumentParser(ParserDeprecations, ActionsContainer, ArgumentLinking, argp
         Raises:
             ArgumentError: If the parsing fails error and exit_on_error=True.
         """
-        fpath = Path(cfg_path, mode=get_config_read_mode())
-        with change_to_path_dir(fpath):
+        try:
+            fpath = Path(cfg_path, mode=get_config_read_mode())
             cfg_str = fpath.get_content()
+        except (TypeError, OSError, ValueError) as ex:
+            self.error(f"Unable to read configuration file {cfg_path!r}: {ex}", ex)
+        with change_to_path_dir(fpath):
             parsed_cfg = self.parse_string(
                 cfg_str,
                 os.path.basename(cfg_path),
